@@ -276,6 +276,10 @@ def frames(kind: str, raw, tmp):
         pool = _uni_pool()
         df = pool.frame(list(raw))
         prices, _quote = get_price_from_data(df, pool.pool)
+        # a token that is quoted only from the third bar on (listed during the run): its earlier prices are unknown (NaN) and must stay
+        # unknown, whatever it is quoted at later
+        prices = prices.copy()
+        prices["ARB"] = [D("NaN") if j < 2 else D(int(sym)) + D("0.25") for j, sym in enumerate(raw)]
         fr = {"uni": df, "prices": prices}
         return fr, {"uni": df[UNI_RAW]}
     if kind == "aave":
@@ -298,7 +302,10 @@ def frames(kind: str, raw, tmp):
         return fr, dict(fr)
     if kind == "deribit":
         from .deribit_util import book_frame, ts_of
-        books = [book_frame(DERIBIT_BOOKS[s - 1], DERIBIT_INFO) for s in raw]
+        # staggered listing: an instrument whose name sorts before the others appears in the book from the third hour on (a frame
+        # that is re-ordered by instrument, as a resampled one is, then no longer starts with the earliest timestamp)
+        books = [book_frame(DERIBIT_BOOKS[s - 1], DERIBIT_INFO, extra_rows=[("A-LATE", DERIBIT_BOOKS[s - 1]["C"]["und"])] if j >= 2 else ())
+                 for j, s in enumerate(raw)]
         keys = [ts_of(60 * j) for j in range(n)]
         data = pd.concat(books, keys=keys, names=["time", "instrument_name"])
         prices = pd.DataFrame(index=pd.DatetimeIndex(keys), data={"ETH": [D(int(DERIBIT_BOOKS[s - 1]["C"]["und"])) for s in raw]})
